@@ -537,6 +537,8 @@ func runC04(c *Ctx, r *Report) {
 	r.Doc("R-C04.5", "reference budget ≤ requested pointer count")
 	r.Doc("R-C04.6", "the heads named as predecessors are still the log's heads when the entry is installed (one critical section)")
 	r.Doc("R-C04.7", "the loops that take the maximum clock over the heads and build predecessors and references process every element")
+	r.Doc("R-C04.9", "clocks of entries a log holds are never written: mutating clock methods run only on fresh objects (adopted from C05: entry objects are shared between logs, so a raised clock time in one log makes another log's next append no longer dominate it)")
+	importRules(c, r, "C05", []string{"R-C05.1"}, "R-C04.9")
 	r.Doc("R-C04.8", "the appended entry becomes the single head whatever it contains: the head-set constructor files every existing entry (adopted from C02)")
 	importRules(c, r, "C02", []string{"R-C02.11"}, "R-C04.8")
 	loopsComplete(c, r, "R-C04.7", func(fn *Fn) bool {
